@@ -186,11 +186,11 @@ def singleton_rows(sources):
             if re.search(decl, body_wo_getter) or re.search(decl, gbody):
                 slot = list(params)                   # static data member / function-local static: one per instantiation
             else:
-                vm = re.search(r"auto\s*&\s*%s\s*=\s*[\w:]+\s*<([^;]*)>\s*;" % var, gbody)
+                vm = re.search(r"(?:auto|MPI_Datatype|std::unique_ptr\s*<\s*MPI_Op\s*>)\s*&\s*%s\s*=\s*[\w:]+\s*(?:<([^;]*)>)?\s*;" % var, gbody)
                 if not vm:
                     raise TranslateError("%s%s::%s(): storage of the handle `%s` not recognised" % (cname, spec_n, getter, var))
-                args = idents(vm.group(1))
-                slot = [q for q in params if q in args]   # variable template: one per argument list
+                args = idents(vm.group(1) or "")
+                slot = [q for q in params if q in args]   # variable (template): one per argument list
             used_ids = idents(body) | idents(outside)
             used = [q for q in params if q in used_ids]
             fam = cname + spec_n
